@@ -28,6 +28,8 @@ func errCode(err error) int {
 			return 5
 		case "truncated headers":
 			return 6
+		case "dynamic table size update MUST occur at the beginning of a header block":
+			return 8
 		}
 		return 50
 	}
@@ -166,10 +168,6 @@ func gen(r *hv.Rng, i int, tier string) (string, hv.Val) {
 		}
 		nf := r.Range(0, 12)
 		for k := 0; k < nf; k++ {
-			if r.Chance(1, 25) { // mid-block change
-				ops = append(ops, hv.L{hv.I(1), hv.I(genMax(r, L))})
-				setmax = true
-			}
 			if r.Chance(2, 3) {
 				ops = append(ops, pool[r.Intn(len(pool))])
 			} else {
